@@ -175,12 +175,13 @@ class DaemonObject(object):
             raise errors.DaemonError("unknown object")
 
     def get_next_stream_item(self, streamId):
-        if streamId not in self.daemon.streaming_responses:
-            raise errors.PyroError("item stream terminated")
-        client, timestamp, linger_timestamp, stream = self.daemon.streaming_responses[streamId]
-        if client is None:
-            # reset client connection association (can be None if proxy disconnected)
-            self.daemon.streaming_responses[streamId] = (current_context.client, timestamp, 0, stream)
+        with self.daemon.streaming_lock:
+            if streamId not in self.daemon.streaming_responses:
+                raise errors.PyroError("item stream terminated")
+            client, timestamp, linger_timestamp, stream = self.daemon.streaming_responses[streamId]
+            if client is None:
+                # reset client connection association (can be None if proxy disconnected)
+                self.daemon.streaming_responses[streamId] = (current_context.client, timestamp, 0, stream)
         try:
             return next(stream)
         except Exception:
@@ -190,8 +191,9 @@ class DaemonObject(object):
             raise
 
     def close_stream(self, streamId):
-        if streamId in self.daemon.streaming_responses:
-            del self.daemon.streaming_responses[streamId]
+        with self.daemon.streaming_lock:
+            if streamId in self.daemon.streaming_responses:
+                del self.daemon.streaming_responses[streamId]
 
 
 class Daemon(object):
@@ -255,6 +257,7 @@ class Daemon(object):
         self._pyroInstances = {}   # pyro objects for instance_mode=single (singletons, just one per daemon)
         self.streaming_responses = {}   # stream_id -> (client, creation_timestamp, linger_timestamp, stream)
         self.housekeeper_lock = threading.Lock()
+        self.streaming_lock = threading.RLock()     # guards check-then-update sequences on streaming_responses
         self.create_single_instance_lock = threading.Lock()
         self.__mustshutdown.clear()
         self.methodcall_error_handler = _default_methodcall_error_handler
@@ -527,19 +530,20 @@ class Daemon(object):
                 raise  # re-raise if flagged as callback, communication or security error.
 
     def _clientDisconnect(self, conn):
-        if config.ITER_STREAM_LINGER > 0:
-            # client goes away, keep streams around for a bit longer (allow reconnect)
-            for streamId in list(self.streaming_responses):
-                info = self.streaming_responses.get(streamId, None)
-                if info and info[0] is conn:
-                    _, timestamp, _, stream = info
-                    self.streaming_responses[streamId] = (None, timestamp, time.time(), stream)
-        else:
-            # client goes away, close any streams it had open as well
-            for streamId in list(self.streaming_responses):
-                info = self.streaming_responses.get(streamId, None)
-                if info and info[0] is conn:
-                    del self.streaming_responses[streamId]
+        with self.streaming_lock:
+            if config.ITER_STREAM_LINGER > 0:
+                # client goes away, keep streams around for a bit longer (allow reconnect)
+                for streamId in list(self.streaming_responses):
+                    info = self.streaming_responses.get(streamId, None)
+                    if info and info[0] is conn:
+                        _, timestamp, _, stream = info
+                        self.streaming_responses[streamId] = (None, timestamp, time.time(), stream)
+            else:
+                # client goes away, close any streams it had open as well
+                for streamId in list(self.streaming_responses):
+                    info = self.streaming_responses.get(streamId, None)
+                    if info and info[0] is conn:
+                        del self.streaming_responses[streamId]
         self.clientDisconnect(conn)  # user overridable hook
 
     def _housekeeping(self):
